@@ -164,7 +164,10 @@ def gen_base_config(rng, flavour=None, mix=None, allow_toy=True, entropy_edge=0.
     return {"psets": [pspec], "nodes": nodes}
 
 
-def gen_lifecycle(rng, n, max_cycles=3, p_cycle=0.5, reencode=False):
+CHEAP_TO_REIMPORT = ("ed25519", "i1024", "int", "toyed")
+
+
+def gen_lifecycle(rng, n, max_cycles=3, p_cycle=0.5, reencode=False, reboot_host=None):
     """steps of one node between boot and the point where it is ready to receive:
     boot, start, then 0..max persist/crash/recover cycles"""
     steps = [{"op": "boot", "n": n}, {"op": "start", "n": n}]
@@ -177,7 +180,10 @@ def gen_lifecycle(rng, n, max_cycles=3, p_cycle=0.5, reencode=False):
         steps.append(p)
         if rng.random() < 0.15:
             steps.append({"op": "persist", "n": n})
-        steps.append({"op": "crash", "n": n})
+        if reboot_host is not None:
+            steps.append({"op": "reboot", "host": reboot_host})
+        else:
+            steps.append({"op": "crash", "n": n})
         steps.append({"op": "recover", "n": n})
     return steps
 
@@ -200,6 +206,11 @@ def shape_of(scn):
              "".join(n["cls"] for n in scn["config"]["nodes"])]
     if scn.get("intent"):
         parts.append(json.dumps(scn["intent"], sort_keys=True))
+    for nd in scn["config"]["nodes"]:
+        pw = nd.get("pw", "")
+        parts.append("%s/%s/%s" % ((nd.get("entropy") or {}).get("mode", "-"),
+                                   "e" if not pw else "1" if len(pw) == 2 else "s" if len(pw) <= 20 else "l",
+                                   "i" if (nd.get("idA") or nd.get("idB") or nd.get("idS")) else "-"))
     for s in scn["steps"]:
         f = s.get("fault") or s.get("body") or {}
         parts.append("%s%s%s%s" % (s["op"][:3], s.get("n", s.get("dst", "")), f.get("kind", ""), s.get("what", "")))
